@@ -63,6 +63,9 @@ def hist(case, go):
 
 def register(PROPS):
     PROPS["C05"] = {
+        # the property is anchored in message.go, event.go, session.go, replay.go, joe.go, the parser: their translated leaf
+        # functions are re-derived and re-checked on every run of this check too
+        "generated_layer": True,
         "gens": [{"id": "C05", "quick": 500, "thorough": 20000, "thorough_seeds": 8},
                  {"id": "C04", "quick": 2500, "thorough": 60000, "thorough_seeds": 8},
                  {"id": "C09", "quick": 12000, "thorough": 300000, "thorough_seeds": 8},
